@@ -343,7 +343,7 @@ def _c09_nontrivial(line, verdict):
     return verdict.startswith("ok") and "no-claim" not in verdict and "no-known-zero" not in verdict
 
 PROPS["C09"] = {
-    "modules": ["IbexProofs.Props.C09", "IbexProofs.Props.C09exist", "IbexProofs.Props.C09exact", "IbexProofs.Props.C09rules"],
+    "modules": ["IbexProofs.Props.C09", "IbexProofs.Props.C09exist", "IbexProofs.Props.C09exact", "IbexProofs.Props.C09rules", "IbexProofs.Props.C09certify"],
     "harnesses": ["h_newton"],
     "workloads": lambda tier, seed: [{"harness": "h_newton", "tag": "newton", "args": ["c09", seed, 350 if tier == "quick" else 6000]},
                                      {"harness": "h_newton", "tag": "certify", "args": ["certify", seed, 250 if tier == "quick" else 4000]}],
